@@ -54,8 +54,20 @@ where
         Ok(s)
     }
 
-    pub(crate) fn read_exact(&mut self, buffer: &mut [u8]) -> Result<()> {
-        self.input.read_exact(buffer).map_err(to_ase)
+    /// Reads exactly `count` bytes. `count` is a size declared inside the file:
+    /// the buffer grows with the bytes that actually arrive instead of being
+    /// reserved up front (a bogus size would otherwise request gigabytes of
+    /// zeroed memory and abort the process on allocation failure).
+    pub(crate) fn read_bytes(&mut self, count: usize) -> Result<Vec<u8>> {
+        let mut output = Vec::new();
+        self.input
+            .by_ref()
+            .take(count as u64)
+            .read_to_end(&mut output)?;
+        if output.len() != count {
+            return Err(std::io::Error::from(std::io::ErrorKind::UnexpectedEof).into());
+        }
+        Ok(output)
     }
 
     pub(crate) fn skip_reserved(&mut self, count: usize) -> Result<()> {
